@@ -57,6 +57,18 @@ def cli_pairs(ctx, n):
   description: Commit staged changes
   keywords: [git, commit]
   pipeline: false
+- command: kubectl get pods --all-namespaces
+  description: Show every workload unit that the orchestrator currently schedules across the whole cluster, with their states
+  keywords: [cluster]
+  pipeline: false
+- command: kubeadm token list
+  description: Enumerate the bootstrap credentials that new machines may present when they ask to join the control plane
+  keywords: [cluster]
+  pipeline: false
+- command: skaffold dev --port-forward
+  description: Rebuild and redeploy continuously while source files change, forwarding the declared service endpoints locally
+  keywords: [cluster]
+  pipeline: false
 """)
         env = dict(os.environ, HOME=os.path.join(tmp, "h"), XDG_CONFIG_HOME=os.path.join(tmp, "h", ".config"), NO_COLOR="1")
         os.makedirs(env["XDG_CONFIG_HOME"], exist_ok=True)
@@ -81,6 +93,10 @@ def cli_pairs(ctx, n):
         bad = 0
         for k in range(n):
             q = recovery_query() if k % 2 else rnd.choice(base)
+            if k % 5 == 4:
+                # a short fragment of a command NAME (no indexed token, too weak a typo match against the long
+                # descriptions): only the recovery search's whole-query substring strategy answers it
+                q = rnd.choice(["kub", "ube", "kube", "skaf", "kaff", "ubea", "bectl", "ubect"])
             v = "".join(c.upper() if rnd.random() < 0.5 else c for c in q)
             if "k" in v and rnd.random() < 0.5:
                 v = v.replace("k", "\u212a", 1)
@@ -91,7 +107,7 @@ def cli_pairs(ctx, n):
             ctx.cov["evaluations"] += 1
             if a:
                 ctx.distinct.add("cli:" + q + "|" + v)
-                ctx.add_distribution({"cli.recovery-answered" if k % 2 else "cli.engine-answered": 1})
+                ctx.add_distribution({("cli.recovery-substring-answered" if k % 5 == 4 else "cli.recovery-answered") if (k % 2 or k % 5 == 4) else "cli.engine-answered": 1})
             if a != b:
                 bad += 1
                 ctx.hit("cli-case-or-whitespace-changes-output", "wtf %r -> %s but %r -> %s" % (q, a, v, b),
